@@ -95,6 +95,11 @@ def moreBytes : List Frag → List UInt8
   | [] => []
   | f :: t => ctlBytes f.before ++ frame t.isEmpty opCont f.key f.payload ++ moreBytes t
 
+/-- continuation frames none of which is the last one of its message (FIN clear on all) -/
+def openBytes : List Frag → List UInt8
+  | [] => []
+  | f :: t => ctlBytes f.before ++ frame false opCont f.key f.payload ++ openBytes t
+
 def Msg.bytes (m : Msg) : List UInt8 :=
   ctlBytes m.first.before ++ frame m.more.isEmpty (if m.binary then opBinary else opText) m.first.key m.first.payload ++
     moreBytes m.more
